@@ -25,6 +25,10 @@ class AnalysisBroken(Exception):
     pass
 
 
+class ExtractionBroken(AnalysisBroken):
+    pass
+
+
 def resource_dir():
     return subprocess.check_output(["clang++", "-print-resource-dir"], text=True).strip()
 
@@ -72,7 +76,7 @@ def extract(units, outdir):
         p = subprocess.run(cmd, stdout=subprocess.PIPE, stderr=subprocess.PIPE, text=True)
         if p.returncode != 0 or not os.path.exists(out):
             errs = "\n".join(l for l in p.stderr.splitlines() if "error" in l)[:3000]
-            raise AnalysisBroken("extraction failed for %s (the unit no longer compiles with clang):\n%s" % (u.src, errs))
+            raise ExtractionBroken("extraction failed for %s (the unit no longer compiles with clang):\n%s" % (u.src, errs))
         return out
 
     with ThreadPoolExecutor(max_workers=JOBS) as ex:
@@ -199,6 +203,40 @@ def write_evidence(ctx, status, explanation, samples_n=6):
         json.dump(ev, f, indent=1)
 
 
+def finish(ctx, prop, module):
+    known = load_known()
+    new = []
+    for v in ctx.violations:
+        k = match_known(prop, v, known)
+        if k is not None:
+            print("KNOWN-FINDING: property=%s %s [%s %s]" % (prop, k.get("what", ""), v["rule"], v["site"]))
+        else:
+            new.append(v)
+    for n in ctx.notes:
+        print("NOTE: %s" % n)
+    ok_n = sum(1 for o in ctx.obligations if o["ok"])
+    print("%s: %d obligations evaluated, %d hold, %d violated (%d known)" %
+          (prop, len(ctx.obligations), ok_n, len(ctx.violations), len(ctx.violations) - len(new)))
+    write_evidence(ctx, "ok" if not new else "violations", getattr(module, "EXPLANATION", ""))
+    if new:
+        os.makedirs(os.path.join(VERIF, "reports"), exist_ok=True)
+        rp = os.path.join(VERIF, "reports", "%s%s.json" % (prop, "-scratch" if os.environ.get("BSA_NO_EVIDENCE") else ""))
+        with open(rp, "w") as f:
+            json.dump({"property": prop, "violations": new}, f, indent=1)
+        for v in new[:25]:
+            print("  %s %s: %s\n      at %s" % (v["rule"], v["instance"], v["msg"], v["where"]))
+            if v.get("detail"):
+                d = v["detail"]
+                if isinstance(d, list):
+                    for l in d[:16]:
+                        print("        | %s" % l)
+                else:
+                    print("        | %s" % d)
+        print("VIOLATION property=%s replay=%s" % (prop, rp))
+        return 1
+    return 0
+
+
 def run_property(prop, module, tier):
     """returns exit code"""
     ctx = Ctx(prop, tier)
@@ -221,42 +259,17 @@ def run_property(prop, module, tier):
             if ctx.unmet and not ctx.violations:
                 raise AnalysisBroken("; ".join(ctx.unmet))
         except AnalysisBroken as e:
+            if ctx.violations and not isinstance(e, ExtractionBroken):
+                # concrete violations were already established before the analysis lost an anchor:
+                # they stand on their own (each names its construct); report them
+                ctx.note("analysis stopped early: %s" % e)
+                return finish(ctx, prop, module)
             print("ANALYSIS-BROKEN property=%s %s" % (prop, e))
             try:
                 write_evidence(ctx, "analysis-broken: %s" % e, getattr(module, "EXPLANATION", ""))
             except Exception:
                 pass
             return 2
-        known = load_known()
-        new = []
-        for v in ctx.violations:
-            k = match_known(prop, v, known)
-            if k is not None:
-                print("KNOWN-FINDING: property=%s %s [%s %s]" % (prop, k.get("what", ""), v["rule"], v["site"]))
-            else:
-                new.append(v)
-        for n in ctx.notes:
-            print("NOTE: %s" % n)
-        ok_n = sum(1 for o in ctx.obligations if o["ok"])
-        print("%s: %d obligations evaluated, %d hold, %d violated (%d known)" %
-              (prop, len(ctx.obligations), ok_n, len(ctx.violations), len(ctx.violations) - len(new)))
-        write_evidence(ctx, "ok" if not new else "violations", getattr(module, "EXPLANATION", ""))
-        if new:
-            os.makedirs(os.path.join(VERIF, "reports"), exist_ok=True)
-            rp = os.path.join(VERIF, "reports", "%s%s.json" % (prop, "-scratch" if os.environ.get("BSA_NO_EVIDENCE") else ""))
-            with open(rp, "w") as f:
-                json.dump({"property": prop, "violations": new}, f, indent=1)
-            for v in new[:25]:
-                print("  %s %s: %s\n      at %s" % (v["rule"], v["instance"], v["msg"], v["where"]))
-                if v.get("detail"):
-                    d = v["detail"]
-                    if isinstance(d, list):
-                        for l in d[:16]:
-                            print("        | %s" % l)
-                    else:
-                        print("        | %s" % d)
-            print("VIOLATION property=%s replay=%s" % (prop, rp))
-            return 1
-        return 0
+        return finish(ctx, prop, module)
     finally:
         shutil.rmtree(scratch, ignore_errors=True)
